@@ -27,9 +27,10 @@ let pcfg (c : econfig) : ostring =
   let cb s = Printf.sprintf "(mkCb %s %s %s)" (pz s.cb_status) (pbeh s.cb_beh) (plist pz s.cb_dests) in
   let to_ s = Printf.sprintf "(mkTo %s %s %s %s %s)" (pz s.to_status) (pz s.to_dur) (pbeh s.to_beh) (plist pz s.to_dests) (pz s.to_pause) in
   let hook (st, k) = Printf.sprintf "(%s, %s)" (prs st) (pnat k) in
+  let conn s = Printf.sprintf "(mkConn %s %s %s)" (pn s.cn_id) (pnat s.cn_fail) (pz s.cn_par) in
   let sched s = Printf.sprintf "(mkSched %s %s %s %s)" (pn s.sd_fid) (pz s.sd_spec) (pz s.sd_seed) (pz s.sd_filter) in
-  Printf.sprintf "(mkEcfg %s %s %s %s %s %s %s %s %s %s %s %s %s)"
-    (plist step c.ec_steps) (plist cb c.ec_cbs) (plist to_ c.ec_tos) (plist hook c.ec_hooks) (plist sched c.ec_scheds)
+  Printf.sprintf "(mkEcfg %s %s %s %s %s %s %s %s %s %s %s %s %s %s)"
+    (plist step c.ec_steps) (plist cb c.ec_cbs) (plist to_ c.ec_tos) (plist hook c.ec_hooks) (plist sched c.ec_scheds) (plist conn c.ec_conns)
     (pz c.ec_del) (pz c.ec_dpar) (pz c.ec_dpause) (pz c.ec_retry) (pz c.ec_limit) (pz c.ec_backoff) (pz c.ec_inst) (pb c.ec_stamp)
 
 let pkind k = "K" ^ Engparse.kind_str k
@@ -42,6 +43,7 @@ let punit = function
   | EInserter s -> Printf.sprintf "(EInserter %s)" (pz s)
   | EHook st -> Printf.sprintf "(EHook %s)" (prs st)
   | ESched f -> Printf.sprintf "(ESched %s)" (pn f)
+  | EConn (cid, i, n) -> Printf.sprintf "(EConn %s %s %s)" (pn cid) (pz i) (pz n)
 let pctl = function OpPause -> "OpPause" | OpResume -> "OpResume" | OpCancel -> "OpCancel" | OpDeleteData -> "OpDeleteData"
 let pop = function
   | OTrigger (f, st, sd, pl) -> Printf.sprintf "(OTrigger %s %s %s %s)" (pn f) (pz st) (pz sd) (pplan pl)
@@ -54,6 +56,7 @@ let pop = function
   | OLose (i, u) -> Printf.sprintf "(OLose %s %s)" (pz i) (punit u)
   | ORewind (u, p) -> Printf.sprintf "(ORewind %s %s)" (punit u) (pnat p)
   | ODup i -> Printf.sprintf "(ODup %s)" (pnat i)
+  | OConnSend (cid, id, fid) -> Printf.sprintf "(OConnSend %s %s %s)" (pn cid) (pz id) (pn fid)
 
 (* sample every k-th engine case of a case file; return (index, cfg, ops) *)
 let sample (file : ostring) (n : int) =
